@@ -103,9 +103,12 @@ def run_err_family(fam, st):
     from pyrtcm import RTCMReader  # pylint: disable=import-outside-toplevel
     from pyrtcm.exceptions import RTCMParseError  # pylint: disable=import-outside-toplevel
 
-    frame = pinned.frame(items.unknown_payload(fam["len"] - 6, 4020, fam["len"])
-                         if fam["len"] - 6 >= 2 else bytes([0x3E] * (fam["len"] - 6)))
-    assert len(frame) == fam["len"]
+    if fam["kind"] == "nested":
+        frame = nested_frame(fam["inner"], fam["bit"])
+    else:
+        frame = pinned.frame(items.unknown_payload(fam["len"] - 6, 4020, fam["len"])
+                             if fam["len"] - 6 >= 2 else bytes([0x3E] * (fam["len"] - 6)))
+        core.require(len(frame) == fam["len"], "C08 frame length")
     nbits = len(frame) * 8
     fi = int.from_bytes(frame, "big")
     n = 0
@@ -132,12 +135,13 @@ def run_err_family(fam, st):
         out.bad("damage-not-rejected:" + fam["kind"],
                 f"frame of {len(frame)} B with error pattern {e:#x} ({bin(e).count('1')} bits, span "
                 f"{e.bit_length() - (e & -e).bit_length() + 1}) -> {res}")
-        st.add({"kind": "err", "len": fam["len"], "e": hex(e)}, out)
+        st.add({"kind": "err", "len": fam["len"], "e": hex(e),
+                "nested": [fam["inner"], fam["bit"]] if fam["kind"] == "nested" else None}, out)
         st.evaluations -= 1
         st.nontrivial -= 1
 
     kind = fam["kind"]
-    if kind == "1bit":
+    if kind in ("1bit", "nested"):
         for b in range(nbits):
             one(1 << b)
     elif kind == "2bit":
@@ -187,6 +191,21 @@ def run_err_family(fam, st):
     st.extra["patterns_by_family"][kind] = st.extra["patterns_by_family"].get(kind, 0) + n
 
 
+def nested_frame(inner, bit):
+    """
+    A valid frame of payload length L = inner | 1<<bit whose first inner+6 bytes, once that one
+    length bit is cleared, are themselves a valid frame: a decoder that trusts the length field
+    and checksums only the declared prefix accepts the damaged frame.
+    """
+    outer = inner | (1 << bit)
+    core.require(outer != inner and inner + 3 <= outer <= 1023, "C08 nested frame")
+    p0 = items.unknown_payload(inner, 4021, bit)
+    hdr_in = b"\xd3" + inner.to_bytes(2, "big")
+    crc_in = pinned.crc24q_table(hdr_in + p0).to_bytes(3, "big")
+    payload = p0 + crc_in + bytes((7 * i + bit) & 0xFF for i in range(outer - inner - 3))
+    return pinned.frame(payload)
+
+
 def run_v0(st, tier):
     from pyrtcm import RTCMReader  # pylint: disable=import-outside-toplevel
 
@@ -219,8 +238,9 @@ def judge(case):
         _check_crc(case["data"], out, "replay")
     elif case["kind"] == "err":
         ln = case["len"]
-        frame = pinned.frame(items.unknown_payload(ln - 6, 4020, ln) if ln - 6 >= 2
-                             else bytes([0x3E] * (ln - 6)))
+        frame = nested_frame(*case["nested"]) if case.get("nested") else \
+            pinned.frame(items.unknown_payload(ln - 6, 4020, ln) if ln - 6 >= 2
+                         else bytes([0x3E] * (ln - 6)))
         dmg = (int.from_bytes(frame, "big") ^ int(case["e"], 16)).to_bytes(ln, "big")
         try:
             RTCMReader.parse(dmg, validate=1)
@@ -270,6 +290,12 @@ def plan(tier):
         fams.append({"kind": "1bit", "len": ln})
     for ln in ([6, 8, 16, 24, 64] if tier == "quick" else list(range(6, 65)) + [256]):
         fams.append({"kind": "2bit", "len": ln})
+    for inner in ((2, 4, 19) if tier == "quick" else (2, 3, 4, 5, 8, 19, 33, 100, 255)):
+        for bit in range(10):
+            outer = inner | (1 << bit)
+            if outer != inner and inner + 3 <= outer <= 1023 and (tier == "thorough" or outer <= 300
+                                                                  or bit == 9):
+                fams.append({"kind": "nested", "inner": inner, "bit": bit, "len": outer + 6})
     fams.append({"kind": "2bit-dist", "len": 1029, "dists": [1, 24] if tier == "quick"
                  else [1, 2, 23, 24, 25, 8231], "stride": 1})
     for ln in ([6, 8] if tier == "quick" else [6, 7, 8, 9, 10]):
